@@ -157,6 +157,8 @@ type Storage struct {
 	counts    map[string]int
 	nextID    int
 	CreateNil bool // CreateAuthRequest returns (nil, nil)
+	CreateFailWithValue bool // a failing CreateAuthRequest still returns the request object
+	FoldEntityCase      bool // GetEntityByID resolves entity IDs case-insensitively
 	KeyFaults map[string]map[int]string // key getter -> occurrence -> malformed record kind
 }
 
@@ -253,6 +255,13 @@ func (s *Storage) GetEntityByID(ctx context.Context, entityID string) (*servicep
 		return nil, err
 	}
 	sp, ok := s.SPs[entityID]
+	if !ok && s.FoldEntityCase {
+		for id, cand := range s.SPs {
+			if strings.EqualFold(id, entityID) {
+				sp, ok = cand, true
+			}
+		}
+	}
 	if !ok {
 		return nil, errors.New("unknown service provider")
 	}
@@ -282,6 +291,9 @@ func (s *Storage) CreateAuthRequest(ctx context.Context, req *samlp.AuthnRequest
 		}
 	}
 	if err := s.fault("CreateAuthRequest", acs, binding, relay, appID, reqID); err != nil {
+		if s.CreateFailWithValue {
+			return &AuthReq{ID: "ar-unsaved", AppID: appID, Relay: relay, Acs: acs, Binding: binding, ReqID: reqID}, err
+		}
 		return nil, err
 	}
 	if s.CreateNil {
